@@ -34,6 +34,7 @@ macro("DemeOk", ["t", "l", "i", "d"], """
     and d._problem != None and 0 <= d._started_at and d._started_at <= t.metaepoch_count
     and id_depth(d._id) == l and type_id(d) == deme_class_of(type_id(t.config.levels[l]))
     and HistShape(d) and wowner(d._problem) == d and d._lsc != None
+    and imp(d._active, not field(d, "$engine_stop", "bool"))
 """)
 macro("S_deme", ["t"], """
     forall(lambda l, i: imp(0 <= l < len(t._levels) and 0 <= i < len(t._levels[l]), DemeOk(t, l, i, t._levels[l][i])),
@@ -99,7 +100,7 @@ def struct(t, tags="C07", prefix="struct_"):
 # what a freshly constructed deme looks like (postcondition of every deme constructor)
 macro("DemeFresh", ["r", "cfg", "id_", "level", "started", "seed"], """
     r != None and r._id == id_ and r._level == level and r._started_at == started and r._sprout_seed == seed
-    and r._config == cfg and r._lsc == cfg.lsc and r._active and not r._hibernating
+    and r._config == cfg and r._lsc == cfg.lsc and r._active and not r._hibernating and not field(r, "$engine_stop", "bool")
     and r._children != None and fresh(r._children) and len(r._children) == 0 and kind(r._children) == 2 and owner(r._children) == r
     and r._history != None and fresh(r._history) and kind(r._history) == 3 and owner(r._history) == r and len(r._history) == 1
     and HistShape(r) and is_none(r._centroid)
